@@ -286,7 +286,7 @@ def finish(ctx):
 def tier_params(tier):
     if tier == "thorough":
         return {"l_count": 300000, "mixed": 1200, "cb": 320, "twins": 240, "cap": 120000, "max_states": 400}
-    return {"l_count": 6000, "mixed": 160, "cb": 120, "twins": 48, "cap": 30000, "max_states": 250}
+    return {"l_count": 6000, "mixed": 224, "cb": 150, "twins": 48, "cap": 30000, "max_states": 250}
 
 
 def stage_l(ctx, prop=None, count=None):
